@@ -36,6 +36,9 @@ def run(chk, repo):
     chk.attempt(check_codec, chk, repo, "C07")
     chk.attempt(naming, chk, op)
     chk.attempt(provenance, chk, op)
+    from .c10 import w3
+    chk.rule("C10-W3", "no module-level state / memoisation on the open path: a later open must honour its own records_per_chunk and cache options (C07-G5)", 1)
+    chk.attempt(w3, chk, op)
     chk.count("functions", len(op.reach))
 
 
@@ -257,6 +260,13 @@ def naming(chk, op):
         e = e.left
     last = flow.expand(parts[0]) if parts else None
     var, suf = _fstring_suffix(last) if last is not None else (None, None)
+    if suf is None:
+        txt = norm(last) if last is not None else ""
+        if "with_suffix(" in txt or ".stem" in txt or "splitext" in txt:
+            chk.fail("C07-N", op.where(loc), f"local cache name is {txt[:90]}: it replaces / cuts the part after the last dot of the image file name, and CEOS names contain dots "
+                                             f"(...1.1__D-B3): all scans of a product share one cache file, the last one written is served for every scan", key="naming:local:extension-replaced")
+            return
+        raise AnalysisError(f"{op.where(loc)}: local cache name {txt[:80]} is not of the form <file name> + literal suffix; not decided")
     found["local"] = (var, suf, loc)
     # the leading variable must be the file name part of path
     fname_ok = False
